@@ -2,6 +2,8 @@ import Spine.Lock
 import Spine.Race
 import Spine.RaceRW
 import Spine.LockTables
+import Spine.LockRW
+import Spine.LockObs
 import Spine.Generated.Locks
 /-!
 # C17 — concurrent use is free of data races and of deadlocks on the stack's own locks
@@ -17,7 +19,14 @@ Property theorems only. Two layers:
   them): `c17_lock_order_ranked`, `c17_no_lock_leak`, `c17_guarded_by`, `c17_common_lock_sound`,
   `c17_undisciplined_exact`, `c17_tables_wellformed`, `c17_package_state_guarded`;
 * **connection** of the two: `c17_no_deadlock`, `c17_disciplined_fields_ordered` (exclusive mutex
-  model), `c17_disciplined_fields_ordered_rw` (reader/writer model, covers every disciplined field).
+  model), `c17_disciplined_fields_ordered_rw` (reader/writer model, covers every disciplined field);
+* **reader/writer deadlocks** (`Spine.LockRW`: Go's blocking rule with queued writers, refinement to
+  the plain model): `c17_no_rw_deadlock`, `c17_no_self_edge`, `c17_no_reacquisition` (recursive
+  `RLock` included), `c17_recursive_rlock_deadlocks` (why it matters);
+* **what the dynamic cross-check of the analyser establishes** (`Spine.LockObs`; the driver
+  `drv_lockobs` evaluates `acqOk` / `accOk` over these very tables on every observation of the
+  instrumented runs): `c17_observed_no_deadlock`, `c17_rejected_acquisition_breaks_assumption`,
+  `c17_monitored_trace_guarded`, `c17_monitored_fields_ordered`.
 
 What is proved: for every state of the abstract thread/lock model whose "holds h, waits for m"
 pairs are among the extracted edges, no set of threads waits cyclically; for every trace respecting
@@ -295,5 +304,101 @@ theorem c17_disciplined_fields_ordered_rw (f : Nat) (hf : f ∈ sharedFields) (h
   | none => exact absurd hm hc
   | some m =>
     exact ⟨m, guardedRW_trace_ordered m f t1 t2 w1 w2 hne hconf later mid earlier hwf (ht f m hm)⟩
+
+/-! ## reader/writer locks in the deadlock clause -/
+
+/-- **No self-edge.** No extracted edge leads from a mutex to itself: on the (struct type, field)
+    level no function may ask for a mutex while a mutex of the same type and field is held — neither
+    the same instance (certain self-deadlock, or recursive `RLock`) nor that of another object
+    (same-type nesting, which the identity abstraction could not order). Regenerated: follows from
+    the rank over the current table. -/
+theorem c17_no_self_edge : ∀ e ∈ lockEdges, e.1 ≠ e.2 :=
+  LockRW.ranked_no_self_edge rank lockEdges c17_lock_order_ranked
+
+/-- **No deadlock with reader/writer locks.** In the model with Go's `sync.RWMutex` blocking rule
+    (a `Lock` waits for every holder in either mode; an `RLock` waits for an exclusive holder AND
+    for every queued writer), no state whose mode-forgetting image respects the extracted edges —
+    the analyser counts an `RLock` as an acquisition and a shared hold as a hold — contains a
+    non-empty set of threads each blocked by a member of the set. Any number of goroutines. -/
+theorem c17_no_rw_deadlock (thrs : List LockRW.Thr)
+    (he : RespectsEdges lockEdges (thrs.map LockRW.abs)) : ¬ LockRW.Deadlocked thrs :=
+  LockRW.ranked_edges_no_rw_deadlock rank lockEdges c17_lock_order_ranked thrs he
+
+/-- **No re-acquisition**, recursive read lock included: in every state that respects the extracted
+    edges no goroutine asks for a mutex it already holds, in any combination of modes (`Lock` in
+    `Lock`, upgrade `Lock` in `RLock`, `RLock` in `Lock`, `RLock` in `RLock`). -/
+theorem c17_no_reacquisition (thrs : List LockRW.Thr)
+    (he : RespectsEdges lockEdges (thrs.map LockRW.abs)) :
+    ∀ t ∈ thrs, ∀ w, t.waiting = some w → w.mutex ∉ t.wheld ∧ w.mutex ∉ t.rheld :=
+  LockRW.ranked_no_reacquire rank lockEdges c17_lock_order_ranked thrs he
+
+/-- why the previous theorem is needed (non-vacuity of the finer model): a goroutine holding
+    `RLock m` that asks for `RLock m` again is deadlocked as soon as a writer has queued, although
+    nobody holds `m` exclusively; alone it is not -/
+theorem c17_recursive_rlock_deadlocks :
+    LockRW.Deadlocked LockRW.recursiveRLock ∧ ¬ LockRW.Deadlocked [⟨[], [1], some (.rlock 1)⟩] :=
+  ⟨LockRW.recursiveRLock_deadlocked, LockRW.reader_alone_not_deadlocked⟩
+
+/-- non-vacuity of `c17_no_rw_deadlock` over the regenerated table: a state with a reader, a queued
+    writer and nested waiting along real edges respects the table (`decide` over the current rows:
+    uses the first extracted edge, whatever it is) -/
+example : ∀ e ∈ lockEdges.head?.toList,
+    RespectsEdges lockEdges ([⟨[], [e.1], some (.lock e.2)⟩, ⟨[e.2], [], none⟩, ⟨[], [], some (.rlock e.1)⟩].map LockRW.abs) := by
+  decide +kernel
+
+/-! ## what the dynamic cross-check of the analyser establishes -/
+
+/-- **Observed acquisitions.** If the driver accepted every observed "holds `held`, asks for `m`"
+    (`LockObs.acqOk lockEdges`, the predicate `drv_lockobs` evaluates on each distinct observation
+    of the instrumented runs), then the state in which ALL observed acquisitions are pending at
+    once — in any number of goroutines, together with any threads that only hold — is not
+    deadlocked. -/
+theorem c17_observed_no_deadlock (obs : List LockObs.Obs) (holders : List (List Nat))
+    (h : ∀ o ∈ obs, LockObs.acqOk lockEdges o.1 o.2 = true) :
+    ¬ Lock.Deadlocked (LockObs.obsState obs holders) :=
+  LockObs.observed_no_deadlock rank lockEdges c17_lock_order_ranked obs holders h
+
+/-- … and an observation the driver rejects refutes the trusted-translator assumption: no state
+    containing that thread respects the edges (the harness reports it as a broken tie). -/
+theorem c17_rejected_acquisition_breaks_assumption (o : LockObs.Obs) (thrs : List Lock.Thr)
+    (hrej : LockObs.acqOk lockEdges o.1 o.2 = false) (hin : (⟨o.1, some o.2⟩ : Lock.Thr) ∈ thrs) :
+    ¬ RespectsEdges lockEdges thrs :=
+  LockObs.rejected_breaks_assumption lockEdges o thrs hrej hin
+
+/-- non-vacuity over the regenerated table: the first edge is an accepted observation, its reverse
+    a rejected one -/
+example : ∀ e ∈ lockEdges.head?.toList,
+    LockObs.acqOk lockEdges [e.1] e.2 = true ∧ LockObs.acqOk lockEdges [e.2] e.1 = false := by
+  decide +kernel
+
+/-- **Observed accesses.** A trace in which every access to a field with a common lock was recorded
+    with held sets that are inside the real ones (`LockObs.Faithful`: the recorder of the
+    instrumented copy under-approximates) and accepted by the driver (`LockObs.accOk`) satisfies
+    `TableGuardedRW`, the hypothesis of `c17_disciplined_fields_ordered_rw`. -/
+theorem c17_monitored_trace_guarded (tr : List RaceRW.Ev)
+    (h : ∀ f m, commonLock f = some m → LockObs.AllAccepted m f tr) : TableGuardedRW tr :=
+  fun f m hc => LockObs.accepted_guardedRW m f tr (h f m hc)
+
+/-- … so on such a trace every two conflicting accesses to a disciplined field are ordered by
+    happens-before: the race-freedom clause for the disciplined fields with the trusted-translator
+    assumption replaced by "the monitor accepted every access of this execution". -/
+theorem c17_monitored_fields_ordered (f : Nat) (hf : f ∈ sharedFields) (hd : f ∉ undisciplined)
+    (t1 t2 : Nat) (w1 w2 : Bool) (hne : t1 ≠ t2) (hconf : w1 = true ∨ w2 = true)
+    (later mid earlier : List RaceRW.Ev)
+    (hwf : RaceRW.WF (later ++ RaceRW.Ev.acc t2 f w2 :: (mid ++ RaceRW.Ev.acc t1 f w1 :: earlier)))
+    (h : ∀ g m, commonLock g = some m →
+      LockObs.AllAccepted m g (later ++ RaceRW.Ev.acc t2 f w2 :: (mid ++ RaceRW.Ev.acc t1 f w1 :: earlier))) :
+    ∃ m mid2 e2 mid1 e1 mid0, mid = mid2 ++ e2 :: (mid1 ++ e1 :: mid0) ∧
+      RaceRW.IsAcq e2 t2 m ∧ RaceRW.IsRel e1 t1 m :=
+  c17_disciplined_fields_ordered_rw f hf hd t1 t2 w1 w2 hne hconf later mid earlier hwf
+    (c17_monitored_trace_guarded _ h)
+
+/-- non-vacuity: the reader/writer example trace is accepted access by access (held sets as a
+    faithful recorder reports them), and the write under `RLock` only is rejected by `accOk` -/
+example : LockObs.AllAccepted 7 3 exTraceRW := by
+  refine ⟨fun _ => ⟨[7], [7], ⟨?_, ?_⟩, by decide⟩, ⟨fun _ => ⟨[7], [], ⟨?_, ?_⟩, by decide⟩, trivial⟩⟩ <;>
+    simp [RaceRW.Holds, RaceRW.excl, RaceRW.shared]
+example : LockObs.accOk (some 7) true [7] [] = false ∧ LockObs.accOk (some 7) false [7] [] = true := by
+  decide
 
 end Spine.Props.C17
